@@ -45,17 +45,18 @@ func ZZ_C14_ControllerHandlers() {
 	s := NewServer(c)
 	h := zzHandlers[zzConcretize(zzChoice("handler", len(zzHandlers)))]
 	zzReadMode = zzConcretize(zzChoice("body", 3))
-	zzVarID = zzPick("id", "vol", EncodeID(controller.ZZAddr(0)), EncodeID(controller.ZZAddr(3)), EncodeID("tcp://nowhere:9502"), "!!notbase64", "")
+	zzVarID = zzPick("id", EncodeID("vol"), "vol", EncodeID(controller.ZZAddr(0)), EncodeID(controller.ZZAddr(3)), EncodeID("tcp://nowhere:9502"), "!!notbase64", "")
 	err := h.f(s)(&zzRW{}, zzRequest())
 	_ = err
 	zzAssert(c.ZZLockDepth() == 0, "C14.controller."+h.name+".lock-left-held")
 	zzSettle()
 	zzAssert(c.ZZLockDepth() == 0, "C14.controller."+h.name+".lock-left-held-after-settling")
 	// well-formed requests afterwards are still served
-	zzVarID = "vol"
+	zzVarID = EncodeID("vol")
 	zzReadMode = 0
+	zzWritten = nil
 	err2 := s.GetVolume(&zzRW{}, zzRequest())
-	zzAssert(err2 == nil, "C14.controller.GetVolume-fails-after-"+h.name)
+	zzAssert(err2 == nil && len(zzWritten) == 1, "C14.controller.GetVolume-fails-after-"+h.name)
 	err3 := s.ListReplicas(&zzRW{}, zzRequest())
 	zzAssert(err3 == nil, "C14.controller.ListReplicas-fails-after-"+h.name)
 	zzAssert(c.ZZLockDepth() == 0, "C14.controller.lock-left-held-after-follow-up")
@@ -72,7 +73,7 @@ func ZZ_C14_ControllerWriterArrives() {
 	s := NewServer(c)
 	h := zzHandlers[zzConcretize(zzChoice("handler", len(zzHandlers)))]
 	zzReadMode = 0
-	zzVarID = zzPick("id", "vol", EncodeID(controller.ZZAddr(0)))
+	zzVarID = zzPick("id", EncodeID("vol"), EncodeID(controller.ZZAddr(0)))
 	gate := make(chan struct{})
 	done := make(chan bool, 1)
 	opened := false
